@@ -57,11 +57,14 @@ class Model:
         self.xs_post = ""    # system section, after the `system` line (progress measures, gantt chart)
 
 
-PARAM_TEXT = {"value": "int %s", "ref": "int &%s", "const": "const int %s", "range": "int[0,1] %s"}
+PARAM_TEXT = {"value": "int %s", "ref": "int &%s", "const": "const int %s", "range": "int[0,1] %s",
+              "constref": "const int &%s", "constrangeref": "const int[0,2000] &%s", "constbool": "const bool %s"}
 PARAM_TYPE = {"value": "(RANGE (INT) <(CONSTANT:INT -32768)> <(CONSTANT:INT 32767)>)",
               "ref": "(REF (RANGE (INT) <(CONSTANT:INT -32768)> <(CONSTANT:INT 32767)>))",
               "const": "(CONSTANT (INT))",
-              "range": "(RANGE (INT) <(CONSTANT:INT 0)> <(CONSTANT:INT 1)>)"}
+              "range": "(RANGE (INT) <(CONSTANT:INT 0)> <(CONSTANT:INT 1)>)",
+              "constref": "(REF (CONSTANT (INT)))", "constrangeref": "(REF (CONSTANT (RANGE (INT) <(CONSTANT:INT 0)> <(CONSTANT:INT 2000)>)))",
+              "constbool": "(CONSTANT (BOOL))"}
 # labels are parsed in document order, so a select label (a declaration) stays first; the others permute
 ORDERS = [["select", "guard", "synchronisation", "assignment", "probability"],
           ["select", "probability", "assignment", "synchronisation", "guard"],
@@ -486,9 +489,12 @@ def build(choose, common=False, bp_base=True):
         t = Tpl("T%d" % (ti + 1))
         base = 1000 * (ti + 1)
         if ti == 0:
-            pv = choose(5, "T1.params")
+            pv = choose(8, "T1.params")
             t.params = [[("value", "p1"), ("ref", "p2")], [], [("value", "p1")], [("const", "p1"), ("ref", "p2")],
-                        [("ref", "p1"), ("value", "p2"), ("const", "p3")]][pv]
+                        [("ref", "p1"), ("value", "p2"), ("const", "p3")],
+                        # references to constants (their arguments are constant expressions here) next to ordinary ones
+                        [("constref", "p1"), ("ref", "p2")], [("constrangeref", "p1"), ("constref", "p2"), ("value", "p3")],
+                        [("constbool", "p1"), ("constref", "p2"), ("ref", "p3")]][pv]
         elif ti == 1:
             pv = choose(3, "T2.params")
             t.params = [[], [("range", "q1")], [("value", "q1")]][pv]
